@@ -1,6 +1,14 @@
 """Executor for the verification layer (C17): builds the interface and the candidate described by a line, runs
 verifyObject / verifyClass, and — independently of zope.interface.verify — evaluates the statement with
-`inspect.signature(...).bind` on every call shape the interface's signature admits."""
+`inspect.signature(...).bind` on every call shape the interface's signature admits.
+
+A signature token is `r.o.v.k` (required, defaulted, *args?, **kw?) optionally followed by a letter that says how the
+positional parameters are NAMED (the contract is about call shapes, so the names must not matter — which is exactly why
+they are varied):
+  (none)  by role:      a0, a1, … for the required ones, b0, b1, … for the defaulted ones (a method's self is the first a)
+  p       by position:  p0, p1, … whatever their default-ness (a method's self is called `self`): an implementation that
+                        spells the interface's parameter list verbatim, possibly with other defaults
+  q       by position, in the opposite order (the same set of names as `p`, permuted)"""
 import inspect
 
 
@@ -10,12 +18,18 @@ _FUNCS = {}
 def mkfunc(name, sig, with_self):
     """function objects are shared between lines: the same function may be verified as a plain function attribute
     (its first parameter is an ordinary one) and as a method (its first parameter plays `self`)"""
-    r, o, v, k = sig
+    (r, o, v, k), naming = sig
     total = r + (1 if with_self else 0)
-    key = (name, total, o, v, k)
+    key = (name, total, o, v, k) if not naming else (name, with_self, r, o, v, k, naming)
     if key not in _FUNCS:
-        ps = ["a%d" % i for i in range(total)] + ["b%d=None" % i for i in range(o)] + \
-            (["*args"] if v else []) + (["**kws"] if k else [])
+        if naming:
+            names = ["p%d" % i for i in range(r + o)]
+            if naming == "q":
+                names.reverse()
+            ps = (["self"] if with_self else []) + names[:r] + ["%s=None" % x for x in names[r:]]
+        else:
+            ps = ["a%d" % i for i in range(total)] + ["b%d=None" % i for i in range(o)]
+        ps += (["*args"] if v else []) + (["**kws"] if k else [])
         ns = {}
         exec("def %s(%s): pass" % (name, ", ".join(ps)), ns)
         _FUNCS[key] = ns[name]
@@ -24,10 +38,17 @@ def mkfunc(name, sig, with_self):
 
 def mkfunc_d(name, sig):
     """a method whose `self` has a default too (and whose body has locals): `def m(a0=None, b0=None, *args, **kws)`"""
-    r, o, v, k = sig
-    key = (name, "D", o, v, k)
+    (r, o, v, k), naming = sig
+    key = (name, "D", o, v, k, naming)
     if key not in _FUNCS:
-        ps = ["a0=None"] + ["b%d=None" % i for i in range(o)] + (["*args"] if v else []) + (["**kws"] if k else [])
+        if naming:
+            names = ["p%d" % i for i in range(o)]
+            if naming == "q":
+                names.reverse()
+            ps = ["self=None"] + ["%s=None" % x for x in names]
+        else:
+            ps = ["a0=None"] + ["b%d=None" % i for i in range(o)]
+        ps += (["*args"] if v else []) + (["**kws"] if k else [])
         ns = {}
         exec("def %s(%s):\n    x = 1\n    y = 2\n    return x, y" % (name, ", ".join(ps)), ns)
         _FUNCS[key] = ns[name]
@@ -48,7 +69,9 @@ def shapes(sig, impl_pos):
 
 
 def psig(s):
-    return tuple(int(x) for x in s.split("."))
+    """`r.o.v.k[naming]` -> ((r, o, v, k), naming)"""
+    naming = s[-1] if s[-1] in "pq" else ""
+    return tuple(int(x) for x in (s[:-1] if naming else s).split(".")), naming
 
 
 def run(lines, out, args):
@@ -155,7 +178,7 @@ def run(lines, out, args):
                 s = inspect.signature(target)
                 impl_pos = len([p for p in s.parameters.values() if p.kind in (p.POSITIONAL_ONLY, p.POSITIONAL_OR_KEYWORD)])
                 okb = True
-                for k, kws in shapes(psig(d[1:]), impl_pos):
+                for k, kws in shapes(psig(d[1:])[0], impl_pos):
                     try:
                         s.bind(*([0] * k), **kws)
                     except TypeError:
